@@ -89,6 +89,8 @@ def shapes() -> Dict[str, Dict[str, Tables]]:
     weekly = [_in("B1", (date(2018, 1, 3) + timedelta(days=7 * i)).isoformat() + " 10:00:00+00:00", "0.01", str(100 + i), uid=f"B1-w{i}") for i in range(160)]
     out["hundreds_of_fractions"] = {"B1": [("in", weekly), ("out", [_out("B1", "2021-03-01 10:00:00+00:00", "1", "600", uid="B1-big-sale"),
                                                                      _out("B1", "2021-04-01 10:00:00+00:00", "0.6", "650", uid="B1-rest")])]}
+    # B1 has transfers (its sheet is as wide as the INTRA columns reach), B2 was only bought and sold (a narrower sheet); see SHAPE_LAYOUT
+    out["narrow_sheets"] = {"B1": basic("B1"), "B2": [("in", [_in("B2", "2020-02-01 10:00:00+00:00", "3", "50")]), ("out", [_out("B2", "2021-09-01 10:00:00+00:00", "1", "80")])]}
     out["same_instant"] = {"B1": [
         ("in", [_in("B1", "2020-05-05 10:00:00+00:00", "1", "100", uid="a"), _in("B1", "2020-05-05 10:00:00+00:00", "1", "200", uid="b"),
                 _in("B1", "2020-05-05 10:00:00+00:00", "0.5", "150", "INTEREST", uid="c")]),
@@ -99,16 +101,35 @@ def shapes() -> Dict[str, Dict[str, Tables]]:
     return out
 
 
+def _wide_intra_layout() -> Any:
+    """The canonical layout with the INTRA table's notes column moved far to the right: the three header sections end at different columns."""
+    lay = {t: dict(cols) for t, cols in LAYOUT.items()}
+    lay["intra"]["notes"] = 17
+    return lay
+
+
+# shapes whose sheets are written in another column layout, each sheet only as wide as ITS OWN tables need (name -> layout)
+SHAPE_LAYOUT: Dict[str, Any] = {"narrow_sheets": _wide_intra_layout()}
+
+
+def layout_of(name: Optional[str]) -> Any:
+    return SHAPE_LAYOUT.get(name or "", LAYOUT)
+
+
 def assets_of(shape: Dict[str, Tables]) -> List[str]:
     return sorted(shape)
 
 
-def matrices(shape: Dict[str, Tables]) -> Dict[str, List[List[Any]]]:
-    return {a: S.sheet_rows(t, LAYOUT)[0] for a, t in shape.items()}
+def matrices(shape: Dict[str, Tables], name: Optional[str] = None) -> Dict[str, List[List[Any]]]:
+    lay = layout_of(name)
+    if lay is LAYOUT:
+        return {a: S.sheet_rows(t, LAYOUT)[0] for a, t in shape.items()}
+    # every sheet exactly as wide as the tables it contains require
+    return {a: S.sheet_rows(t, lay, width=1 + max(c for tab, _rows in t for c in lay[tab].values()))[0] for a, t in shape.items()}
 
 
-def ini_for(shape: Dict[str, Tables], methods: Optional[Dict[int, str]] = None, extra: str = "") -> str:
-    return S.ini_text(LAYOUT, assets=assets_of(shape), methods=methods, extra=extra)
+def ini_for(shape: Dict[str, Tables], methods: Optional[Dict[int, str]] = None, extra: str = "", name: Optional[str] = None) -> str:
+    return S.ini_text(layout_of(name), assets=assets_of(shape), methods=methods, extra=extra)
 
 
 def event_dates(shape: Dict[str, Tables]) -> List[date]:
